@@ -332,6 +332,9 @@ def sec_sp(ck, G, T):
                 d = g.dijkstra(0)
                 if dvec(d) != [0] + [-1] * (V - 1):
                     ck.fail("dijkstra/wrong-distance", "edgeless graph V=%d: dijkstra(0) = %s" % (V, d), {"V": V, "edges": []})
+                T.newgraph(cE([]))
+                T.add("dijkstra", "zl_eqb (und (dijkstra_model %s %s (nats []) (nats [0]))) %s" % (cnat(V), cE([]), zl(dvec(d))),
+                      {"V": V, "edges": [], "impl": dvec(d)})
             except Exception as e:  # noqa
                 ck.fail("dijkstra/no-edges-raises",
                         "WeightedGraph(%d) without edges: dijkstra(0) raised %s: %s (expected [0, inf, ...])" % (V, type(e).__name__, e),
@@ -880,7 +883,7 @@ def sec_structural(ck, G, T):
             cp = [tuple(x) for x in np.asarray(c.edges).reshape(-1, 2).tolist()] if c.E else []
             if not np.array_equal(adj(c), A) or len(set(cp)) != len(cp):
                 ck.fail("cut_redundancies/wrong", "cut_redundancies: adjacency changed or an edge is still repeated", rp)
-            if not zero:
+            if True:
                 qparts.append("qel_eqb (cut_redundancies_model %s %s) %s" % (cnat(V), cQE(edges), cQE(sorted(elist(c)))))
         except Exception as e:  # noqa
             ck.fail("cut_redundancies/zero-weight-raises" if zero else "cut_redundancies/raises",
@@ -963,6 +966,9 @@ def sec_structural(ck, G, T):
                     want = np.where((rs[:, None] > 0) & (cs[None, :] > 0), A / np.sqrt(rs[:, None] * cs[None, :]), 0)
             want = np.nan_to_num(want)
             ok = np.size(g.weights) == np.shape(g.edges)[0] and np.allclose(adj(g), want, atol=1e-12)
+            if c < 2 and V <= 6 and np.size(g.weights) == np.shape(g.edges)[0]:
+                # exact model vs floats: each weight must be within half an ulp (2^-53 relative) of the rational quotient
+                T.add("normalize", "qel_close %s (normalize%d_model %s)" % (cQE(elist(g)), c, cQE(edges)), dict(rp, c=c, impl=elist(g)), hdr=HDRQ)
             if not ok:
                 wantw = sorted(want[want > 0].ravel().tolist())
                 gotw = sorted(np.asarray(g.weights).ravel().tolist())
